@@ -14,9 +14,9 @@ pub assume_specification<T, A: std::alloc::Allocator> [std::collections::VecDequ
     ensures r == (v@.len() == 0);
 // R14: `self.tasks.back_mut()` + `task.wait().await` -> one stub: await the LAST task (it stays in the deque)
 #[verifier::external_body]
-pub fn vx_wait_back(tasks: &mut std::collections::VecDeque<JobTask>) -> (r: Result<JobTaskWaitResult, error::Error>)
+pub fn vx_wait_back(tasks: &mut std::collections::VecDeque<JobTask>, awaits: &mut Ghost<nat>) -> (r: Result<JobTaskWaitResult, error::Error>)
     requires old(tasks)@.len() > 0
-    ensures final(tasks)@.len() == old(tasks)@.len()
+    ensures final(tasks)@.len() == old(tasks)@.len(), final(awaits)@ == old(awaits)@ + 1
 { unimplemented!() }
 // R14: `let task = &mut self.tasks[0]; task.poll()` -> one stub: poll the FIRST task (it stays in the deque)
 #[verifier::external_body]
